@@ -51,9 +51,9 @@ def t_default_port(s, draw, default_scheme="https"):
         return None
     if s["port"] is None or s["port"] == "":
         s = copy.deepcopy(s)
-        s["port"] = dp
+        s["port"] = draw(st.sampled_from([dp, dp, "0" + dp, "000" + dp]))   # leading zeros are the same port
         return s
-    if s["port"] == dp:
+    if s["port"].lstrip("0") == dp:
         s = copy.deepcopy(s)
         s["port"] = draw(st.sampled_from([None, ""]))
         return s
@@ -315,7 +315,7 @@ def i_default_port(s, draw):
         return None
     s = copy.deepcopy(s)
     scheme = (s["scheme"] or "http").lower()
-    s["port"] = "443" if scheme == "https" else "80"
+    s["port"] = draw(st.sampled_from(["", "0", "00"])) + ("443" if scheme == "https" else "80")
     return s
 
 
@@ -351,7 +351,7 @@ def i_tracking_items(s, draw):
     items = list(s.get("query") or [])
     pool = list(TRACKING_POOL)
     for d, extra in PER_DOMAIN_POOL.items():
-        if s["host"].lower().endswith(d):
+        if s["host"].lower() == d or s["host"].lower().endswith("." + d):
             pool += extra
     for _ in range(draw(st.integers(1, 3))):
         it = list(draw(st.sampled_from(pool)))
